@@ -298,7 +298,8 @@ func (f *Frame) instrWrites(in ssa.Instruction, w *WriteSet) {
 	case *ssa.Defer:
 		w.add(f.callWrites(x.Common()))
 	case *ssa.Go:
-		w.add(f.callWrites(x.Common()))
+		// the spawned body runs concurrently, not in this path (its effects on lock-protected
+		// state are modelled at Lock; unprotected shared state is outside the model)
 	case *ssa.Select, *ssa.Send:
 		// blocking: other goroutines may run; lock-protected state is
 		// re-havocked at Lock, unprotected shared state is outside the model.
